@@ -250,6 +250,9 @@ RAW_OUTPUTS = (
     ('white space only: blank lines', b' \n\r\n\n'),
 )
 
+# the outputs that say nothing: empty or white space only
+QUIET_OUTPUTS = tuple(_b for _d, _b in RAW_OUTPUTS if not _b.strip())
+
 
 def is_utf8(data: bytes) -> bool:
     try:
